@@ -158,7 +158,28 @@ pub fn guard_circ<R>(entry: &str, f: impl FnOnce() -> R) -> Result<R, CircV> {
 }
 
 /// Normalise a panic site: strip scratch / registry prefixes so signatures are stable.
+/// Stable identifier of a panic: `<file>#<message class>` (line numbers shift with unrelated
+/// edits, so they are not part of it; digits in the message are masked).
 pub fn norm_site(msg: &str) -> String {
+    let file = norm_site_file(msg);
+    let file = match file.rfind(':') {
+        Some(i) if file[i + 1..].chars().all(|c| c.is_ascii_digit()) => file[..i].to_string(),
+        _ => file,
+    };
+    let text = msg.rsplitn(2, " @ ").last().unwrap_or("");
+    let class: String = text
+        .chars()
+        .take(48)
+        .map(|c| if c.is_ascii_digit() { '#' } else if c == '\n' { ' ' } else { c })
+        .collect();
+    let mut class = class.trim().to_string();
+    while class.contains("##") {
+        class = class.replace("##", "#");
+    }
+    format!("{file}#{class}")
+}
+
+fn norm_site_file(msg: &str) -> String {
     let site = p3r_verif::util::panic_site(msg);
     if let Some(i) = site.find("/repo/") {
         return site[i + 1..].to_string();
